@@ -68,7 +68,8 @@ LEVEL_TEXT = ("proof for all inputs (Lean 4, no size bound, no sorry): the two-p
               "modelled as written (_defect witnesses) and listed as known findings.")
 LEVEL_NOTE = ("ScoreThresholdRule.similar_kmers, numpy and pickle are exercised (oracle / correspondence), not proved; "
               "C memory safety beyond the proved capacity invariant is trusted")
-TECHNIQUE = "Lean 4 proof (induction over the insertion sequence with a per-slot invariant) + correspondence"
+TECHNIQUE = ("Lean 4 proof (induction over the insertion sequence with a per-slot invariant) + structure, defaults and "
+             "error paths of the anchored .pyx functions regenerated as Lean obligations + correspondence")
 
 LCG_A = 0xD1342543DE82EF95
 I64MAX = 2**63 - 1
@@ -170,10 +171,10 @@ def gen_lean():
     if not alloc:
         raise ValueError("_init_c_arrays allocation size not found")
     ka = open(os.path.join(d, "kmeralphabet.pyx")).read()
-    kmin = re.search(r"if k < (\d+):\s*\n\s*raise ValueError\(\"k must be at least", ka)
+    kmin = re.search(r"if k < (\d+):\s*\n\s*raise \w+\(", ka)
     if not kmin:
         raise ValueError("KmerAlphabet k lower bound not found")
-    wmin = re.search(r"if window < (\d+):\s*\n\s*raise ValueError\(\"Window size must be at least", sl)
+    wmin = re.search(r"if window < (\d+):\s*\n\s*raise \w+\(", sl)
     if not wmin:
         raise ValueError("MinimizerSelector window lower bound not found")
     body = ["/- REGENERATED on every run by harness/props/c10.py from sequence/align/*.pyx. Do not edit. -/",
